@@ -577,6 +577,15 @@ func genC15(c *Ctx) {
 	}
 	// mirrored tall stacks that differ only deep down (see gen_tower.go)
 	emitTowerGames(c, c.Scale(160, 16000))
+	// orbit games: both players fill whole orbits of a rotation (90 or 180 degrees), so the game keeps coming back to
+	// positions with a pure rotational symmetry and is re-oriented by the SAME rotation more than once
+	for it := c.Scale(240, 24000); it > 0; it-- {
+		size := 4 + c.R.Intn(5)
+		if ms := orbitGame(c.R, size); len(ms) > 0 {
+			c.Count("game.orbit")
+			emitCanonFamily(c, size, ms, true)
+		}
+	}
 	n := c.Scale(1000, 100000)
 	for it := 0; it < n; it++ {
 		size := 3 + c.R.Intn(6)
@@ -850,4 +859,72 @@ func init() {
 	genTable["C14"] = genC14
 	genTable["C15"] = genC15
 	genTable["C04book"] = genC04book
+}
+
+// orbitGame: ply 0 puts a black stone on a, ply 1 a white stone on b; then White completes the orbit of b and Black the
+// orbit of a under the rotation rot (quarter turn: orbits of four, half turn: orbits of two), possibly for a second
+// pair of squares, and a short random tail follows.  nil when a square of the plan is taken.
+func orbitGame(r *RNG, size int) []tak.Move {
+	rot := []int{6, 6, 7, 5}[r.Intn(4)] // numbering of gSym: 5 = half turn, 6 and 7 = the quarter turns
+	orbit := func(x, y int) [][2]int {
+		out := [][2]int{{x, y}}
+		for {
+			nx, ny := gSym(rot, size, out[len(out)-1][0], out[len(out)-1][1])
+			if nx == x && ny == y {
+				return out
+			}
+			out = append(out, [2]int{nx, ny})
+			if len(out) > 4 {
+				return nil
+			}
+		}
+	}
+	p := tak.New(tak.Config{Size: size})
+	var ms []tak.Move
+	play := func(m tak.Move) bool {
+		n, err := p.Move(m)
+		if err != nil {
+			return false
+		}
+		p = n
+		ms = append(ms, m)
+		return true
+	}
+	for round := 0; round < 1+r.Intn(2); round++ {
+		oa := orbit(r.Intn(size), r.Intn(size))
+		ob := orbit(r.Intn(size), r.Intn(size))
+		if len(oa) < 2 || len(oa) != len(ob) {
+			return ms
+		}
+		// interleave: the side that owns orbit a / orbit b alternates; in round 0 the first two plies are the swapped opening
+		var white, black [][2]int
+		if round == 0 {
+			black, white = oa, ob // ply 0 (White to move) places a BLACK stone on oa[0]; ply 1 a white one on ob[0]
+			if !play(tak.Move{X: int8(oa[0][0]), Y: int8(oa[0][1]), Type: tak.PlaceFlat}) || !play(tak.Move{X: int8(ob[0][0]), Y: int8(ob[0][1]), Type: tak.PlaceFlat}) {
+				return nil
+			}
+			white, black = white[1:], black[1:]
+		} else {
+			white, black = oa, ob
+		}
+		for i := 0; i < len(white) || i < len(black); i++ {
+			if i < len(white) && !play(tak.Move{X: int8(white[i][0]), Y: int8(white[i][1]), Type: tak.PlaceFlat}) {
+				return ms
+			}
+			if i < len(black) && !play(tak.Move{X: int8(black[i][0]), Y: int8(black[i][1]), Type: tak.PlaceFlat}) {
+				return ms
+			}
+		}
+	}
+	for t := r.Intn(4); t > 0; t-- {
+		if over, _ := p.GameOver(); over {
+			break
+		}
+		ls := legalMoves(p)
+		if len(ls) == 0 {
+			break
+		}
+		play(pickBiased(r, p, ls))
+	}
+	return ms
 }
